@@ -104,6 +104,17 @@ VARIANTS: list[Variant] = [
     V("C18-a", "C18", "R1", "src/ramses_rf/system/schedule.py", "        finally:  # incl. if a fragment RQ fails, or the caller's timeout cancels this\n            self.tcs._release_lock()", "        except KeyError:\n            raise\n        else:\n            self.tcs._release_lock()", "reversal of the F10 fix (release only on success)"),
     V("C18-b", "C18", "R2", "src/ramses_rf/system/schedule.py", "        self._payload_set: _PayloadSetT = list(EMPTY_PAYLOAD_SET)  # Rx'd, not shared", "        self._payload_set: _PayloadSetT = EMPTY_PAYLOAD_SET  # Rx'd", "reversal of the F11 fix"),
     V("C18-c", "C18", "R4", "src/ramses_rf/system/schedule.py", "        if msg.payload[SZ_TOTAL_FRAGS] != 0xFF and self.tcs.zone_lock_idx != self.idx:", "        if msg.payload[SZ_TOTAL_FRAGS] != 0xFF:", "overheard fragments merged regardless of the lock"),
+    # ---- C19
+    V("C19-a", "C19", "R1", "src/ramses_rf/system/faultlog.py", "        if dtm not in self._log:\n            self._log |= {dtm: entry}  # must add entry before _insert_into_map()\n        self._map = self._insert_into_map(idx, dtm)  # updates self._map\n", "        self._map = self._insert_into_map(idx, dtm)  # updates self._map\n        if dtm not in self._log:\n            self._log |= {dtm: entry}\n", "the entry is added to the log after the map is rebuilt and the log filtered... (install before add)"),
+    V("C19-b", "C19", "R1", "src/ramses_rf/system/faultlog.py", "        if dtm is None:  # there are no subsequent log entries\n            return new_map\n\n        new_map |= {idx: dtm}\n", "        new_map |= {idx: dtm}\n\n        if dtm is None:  # there are no subsequent log entries\n            return new_map\n", "a null entry's None timestamp is placed in the map"),
+    V("C19-c", "C19", "R1", "src/ramses_rf/system/faultlog.py", "        self._log = {k: v for k, v in self._log.items() if k in self._map.values()}\n\n        # if idx != 0:", "        self._log = {k: v for k, v in self._log.items() if k in self._map.values() and k <= dtm}\n\n        # if idx != 0:", "the log is pruned of entries newer than the one just seen, although the map keeps them"),
+    V("C19-d", "C19", "R2", "src/ramses_rf/system/faultlog.py", "            self._log |= {dtm: entry}  # must add entry before _insert_into_map()", "            self._log |= {dtm: self._log.get(self._map.get(idx), entry)}  # keep what we had", "an entry is stored under another entry's timestamp"),
+    V("C19-e", "C19", "R3", "src/ramses_rf/system/faultlog.py", "        if msg.verb == RP and msg.payload[SZ_LOG_ENTRY] is None:", "        if msg.verb == RP and msg.payload[SZ_LOG_ENTRY] is None and SZ_LOG_IDX not in msg.payload:", "an RP null entry carrying idx 00 is processed"),
+    V("C19-f", "C19", "R3", "src/ramses_rf/system/faultlog.py", "        if self._map.get(idx) == dtm:\n            return  # i.e. No evidence anything has changed\n", "        if self._map.get(idx):\n            return  # i.e. we already have this position\n", "a position that is already known is never updated (a new entry at idx 0 is dropped)"),
+    V("C19-g", "C19", "R4", "src/ramses_rf/system/faultlog.py", "            pkt = await self._gwy.async_send_cmd(cmd, wait_for_reply=True)", "            pkt = await self._gwy.async_send_cmd(cmd)", "fault-log requests no longer wait for the reply"),
+    V("C19-h", "C19", "R4", "src/ramses_rf/system/faultlog.py", "                self._process_msg(msg)  # since pkt via dispatcher aint got idx\n                break\n", "                self._process_msg(msg)  # since pkt via dispatcher aint got idx\n", "the retrieval loop carries on after the null entry"),
+    V("C19-i", "C19", "R6", "src/ramses_rf/system/faultlog.py", "        pkt._frame = pkt._frame[:50] + idx + pkt._frame[52:]", "        pkt._frame = pkt._frame[:48] + idx + pkt._frame[50:]", "the index is written two columns early in the frame"),
+    V("C19-j", "C19", "R5", "src/ramses_rf/system/faultlog.py", "        if not faults:\n            return None\n\n        return self._log[max(faults)]", "        return self._log[max(faults)]", "latest_fault takes max() of a possibly empty list"),
     # ---- C20
     V("C20-a", "C20", "R1", "src/ramses_rf/binding_fsm.py", "            await asyncio.wait_for(asyncio.shield(self._fut), timeout)", "            await asyncio.wait_for(self._fut, timeout)", "reversal of the F12 fix (shield removed)"),
     V("C20-b", "C20", "R1", "src/ramses_rf/binding_fsm.py", "        if self._fut.done():  # e.g. a duplicate pkt (devices Tx each pkt x3)\n            return\n        if self.is_phase(msg._pkt, self._expected_pkt_phase):\n            self._fut.set_result(msg)\n\n\nclass _DevIsReadyToSendCmd", "        if self.is_phase(msg._pkt, self._expected_pkt_phase):\n            self._fut.set_result(msg)\n\n\nclass _DevIsReadyToSendCmd", "reversal of the F13 fix in _DevIsWaitingForMsg.rcvd_msg"),
